@@ -9,7 +9,7 @@ import (
 )
 
 func c03Opts() ChainOpts {
-	return ChainOpts{Cfgs: []ChainCfg{{Name: "bt-eager", Rewrites: true}, {Name: "bt-ondemand", OnDemand: true, Rewrites: true}}, Repeat: 1, Analysis: "backtrace"}
+	return ChainOpts{Cfgs: []ChainCfg{{Name: "bt-eager", Rewrites: true}, {Name: "bt-ondemand", OnDemand: true, Rewrites: true}}, Repeat: 1, Analysis: "backtrace", IsolateCfgs: true}
 }
 
 func init() { chainOptsByCheck["C03"] = c03Opts }
